@@ -10,6 +10,7 @@ package main
 
 import (
 	"bufio"
+	"bytes"
 	"fmt"
 	"io/ioutil"
 	"math"
@@ -94,6 +95,37 @@ func errName(err error) string {
 // runImpl executes code through the real evm.Call on a deployed account.
 func runImpl(cfg int, gas uint64, code, input []byte) (kind string, left uint64, ret []byte) {
 	setCfg(cfg)
+	return runOn(state, gas, code, input)
+}
+
+var calleeAddr = common.BytesToAddress([]byte("c10-callee-account-"))
+
+// runImpl2: `code` at the contract account, `callee` at a second account it may STATICCALL
+func runImpl2(cfg int, gas uint64, code, callee, input []byte) (kind string, left uint64, ret []byte) {
+	setCfg(cfg)
+	if !state.Exist(calleeAddr) {
+		state.CreateAccount(calleeAddr)
+	}
+	state.SetCode(calleeAddr, callee)
+	return runOn(state, gas, code, input)
+}
+
+// newState: a private account DB (for the concurrent phase each goroutine owns one)
+func newState() *account.AccountDB {
+	mem, err := db.NewMemDatabase()
+	if err != nil {
+		panic(err)
+	}
+	st, err := account.NewAccountDB(common.Hash{}, account.NewDatabase(mem))
+	if err != nil {
+		panic(err)
+	}
+	st.CreateAccount(contract)
+	return st
+}
+
+// runOn: like runImpl on a given state, fork flags as currently set
+func runOn(state *account.AccountDB, gas uint64, code, input []byte) (kind string, left uint64, ret []byte) {
 	state.SetCode(contract, code)
 	ctx := vm.Context{
 		CanTransfer: vm.CanTransfer,
@@ -137,6 +169,24 @@ func execLine(line string) string {
 			return "bad-op"
 		}
 		kind, left, ret := runImpl(cfg, gas, code, input)
+		lastRet = ret
+		if strings.HasPrefix(kind, "err") {
+			return kind
+		}
+		return fmt.Sprintf("%s %d %s", kind, left, hx.Hex(ret))
+	case "run2":
+		if len(w) != 6 {
+			return "bad-op"
+		}
+		cfg, e1 := strconv.Atoi(w[1])
+		gas, e2 := strconv.ParseUint(w[2], 10, 64)
+		code, e3 := hx.UnHex(w[3])
+		callee, e5 := hx.UnHex(w[4])
+		input, e4 := hx.UnHex(w[5])
+		if e1 != nil || e2 != nil || e3 != nil || e4 != nil || e5 != nil || cfg < 0 || cfg > 7 {
+			return "bad-op"
+		}
+		kind, left, ret := runImpl2(cfg, gas, code, callee, input)
 		if strings.HasPrefix(kind, "err") {
 			return kind
 		}
@@ -205,6 +255,9 @@ func main() {
 	case "search":
 		search(a)
 		return
+	case "concurrent":
+		concurrent(a)
+		return
 	}
 	out, err := hx.NewOut(a["ops"], a["obs"])
 	if err != nil {
@@ -214,9 +267,37 @@ func main() {
 	thorough := a["tier"] == "thorough"
 	g := newGen(hx.NewRng(hx.SeedFromEnv()), thorough)
 	dist := map[string]int{}
+	// retention phase (class 3): the byte slices evm.Call handed out are kept and must still
+	// hold the same bytes after later, unrelated executions in this process
+	type kept struct {
+		line      string
+		live, cpy []byte
+	}
+	var ring []kept
+	var aliasing, rejected []string
+	var runLines []string
 	emit := func(stream, line string) {
 		dist[stream]++
+		lastRet = nil
 		res := out.Do(line, func() string { return execLine(line) })
+		for _, k := range ring {
+			if !bytes.Equal(k.live, k.cpy) && len(aliasing) < 5 {
+				aliasing = append(aliasing, k.line+" || clobbered while running: "+line)
+			}
+		}
+		if len(lastRet) > 0 {
+			ring = append(ring, kept{line, lastRet, append([]byte{}, lastRet...)})
+			if len(ring) > 48 {
+				ring = ring[1:]
+			}
+		}
+		if strings.HasPrefix(line, "run ") && stream != "rerun" {
+			runLines = append(runLines, line)
+		}
+		// class 1: a well-formed single-opcode program with ample gas must be accepted
+		if (stream == "vectors" || stream == "arity-ok") && !strings.HasPrefix(res, "ok") && len(rejected) < 5 {
+			rejected = append(rejected, line+" => "+res)
+		}
 		c := res
 		if i := strings.IndexByte(c, ' '); i >= 0 && !strings.HasPrefix(c, "err") {
 			c = c[:i]
@@ -236,6 +317,15 @@ func main() {
 		emit("vectors", l.line)
 	}
 	g.all(func(stream, line string) { emit(stream, line) })
+	// history phase (classes 3b/6): the same programs again, in reverse order, after everything
+	// else has run in this process; the model (a pure function) answers them again
+	step := 9
+	if thorough {
+		step = 23
+	}
+	for i := len(runLines) - 1; i >= 0; i -= step {
+		emit("rerun", runLines[i])
+	}
 	keys := make([]string, 0, len(dist))
 	for k := range dist {
 		keys = append(keys, k)
@@ -266,9 +356,26 @@ func main() {
 		first = false
 		sb.WriteString(strconv.Quote(k[7:]) + ":" + strconv.Itoa(dist[k]))
 	}
-	sb.WriteString("},\"opcodes\":" + g.opcodeHistogram() + "}")
+	sb.WriteString("},\"opcodes\":" + g.opcodeHistogram())
+	sb.WriteString(",\"aliasing\":" + jsonList(aliasing) + ",\"rejected\":" + jsonList(rejected) + "}")
 	fmt.Println("STATS " + sb.String())
 }
+
+func jsonList(xs []string) string {
+	var sb strings.Builder
+	sb.WriteByte('[')
+	for i, x := range xs {
+		if i > 0 {
+			sb.WriteByte(',')
+		}
+		sb.WriteString(strconv.Quote(x))
+	}
+	sb.WriteByte(']')
+	return sb.String()
+}
+
+// lastRet: the slice the last evm.Call returned (not a copy)
+var lastRet []byte
 
 type vecLine struct {
 	name, line   string
